@@ -280,6 +280,8 @@ def run(ctx, out):
     traces = run_cases(rnd, out, "rnd")
     out.sample({"source": "random", "calls": rnd[0]["calls"][:3]})
     out.note("leg C2S: %d traces validated by TLC" % out.traces_validated)
+    # ---- driver leg: the batching the real Driver does
+    driver_leg(ctx, out)
     # binding self-test: one corrupted field / one removed call must be rejected
     import copy
 
@@ -303,10 +305,142 @@ def run(ctx, out):
     out.extra["binding_selftest"] = "a trace with total_count off by one and a trace with its first call removed are rejected by TLC"
 
 
+# ---------------------------------------------------------------------------------------------------
+# driver leg: the batches the REAL Driver makes (periodic post-processing, join points) in simulated races
+# ---------------------------------------------------------------------------------------------------
+def _race_traces(job, label):
+    """Runs one race on the real actors (harness/racetrace.py) and turns every ThroughputCalculator.calculate() call the driver
+    made into C06 trace events, one trace per task. Absolute times are rebased (the calculator only compares them)."""
+    from .. import racetrace
+
+    tr = racetrace.TracedRace(job["scn"], seed=job["seed"], test_mode=job["test_mode"], pp_interval=job.get("pp", 2))
+    try:
+        tr.start()
+        tr.run([tuple(x) for x in job.get("script", [])], random.Random(job["seed"] * 7919 + 13), max_events=400)
+        calls = list(tr.w.tput_calls)
+        done = tr.done()
+    finally:
+        tr.close()
+    base = None
+    for c in calls:
+        for smp in c["batch"]:
+            t0 = Fraction(smp.absolute_time) - Fraction(smp.time_period)
+            base = t0 if base is None or t0 < base else base
+    if base is None:
+        return [], done
+    base = Fraction(int(base) - 8)
+    ids = {}
+
+    def sdict(smp):
+        key = id(smp)
+        tname = smp.task.name
+        if key not in ids:
+            ids[key] = sum(1 for v in ids.values() if v[0] == tname) + 1, tname
+            ids[key] = (tname, ids[key][0])
+        return {
+            "id": ids[key][1],
+            "c": int(smp.client_id) + 1,
+            "abs": _ticks(Fraction(smp.absolute_time) - base),
+            "per": _ticks(Fraction(smp.time_period)),
+            "ops": int(smp.total_ops),
+            "ty": 1 if smp.sample_type.name == "Normal" else 0,
+            "tput": -1 if smp.throughput is None else smp.throughput,
+            "unit": smp.total_ops_unit,
+        }
+
+    traces = {}
+    keep = []  # the Sample objects must stay alive while ids are taken from id()
+    for c in calls:
+        keep.append(c)
+        tasks = []
+        for smp in c["batch"]:
+            if smp.task not in tasks:
+                tasks.append(smp.task)
+        for task in tasks:
+            tb = [sdict(smp) for smp in c["batch"] if smp.task is task]
+            ts = c["stats"].get(task)
+            if ts is None:
+                st = {"exists": False, "unproc": [], "total": 0, "interval": 0, "bucket": 0, "stype": 0, "has": False, "start": 0}
+            else:
+                st = {
+                    "exists": True,
+                    "unproc": [sdict(x) for x in ts["unprocessed"]],
+                    "total": int(ts["total_count"]),
+                    "interval": _ticks(ts["interval"]),
+                    "bucket": _ticks(ts["bucket"]),
+                    "stype": int(ts["sample_type"]),
+                    "has": bool(ts["has"]),
+                    "start": _ticks(Fraction(ts["start_time"]) - base),
+                }
+            outp = []
+            for abs_t, _rel, stype, tput, unit in c["res"].get(task, []):
+                # the driver's calculator works with floats: a value is identified with the simple rational it agrees with to 1e-9
+                # (count * 4 / elapsed ticks has a small denominator)
+                f = Fraction(tput).limit_denominator(100000)
+                if abs(float(f) - float(tput)) > 1e-9 * max(1.0, abs(float(tput))):
+                    raise tlc.MachineryError("non-integral throughput value %r" % (tput,))
+                outp.append({"abs": _ticks(Fraction(abs_t) - base), "ty": int(stype), "num": f.numerator, "den": f.denominator, "unit": unit})
+            traces.setdefault(task.name, []).append({"batch": tb, "st": {"stats": st, "out": outp}})
+    return [{"id": "%s-%s" % (label, t), "events": ev} for t, ev in sorted(traces.items())], done
+
+
+def driver_leg(ctx, out, jobs=None, label="drv"):
+    """C2S on the batches the real Driver makes: every calculate() call of simulated races is validated against Throughput.tla."""
+    from . import racecommon as rc
+
+    if jobs is None:
+        jobs = []
+        beh = rc.behaviours(ctx, out, 24 if ctx.quick else 240, 100, cfg="RaceDriver.sim.cfg", seed_off=61)
+        for i, (scn, script) in enumerate(beh):
+            jobs.append({"scn": scn, "script": script, "seed": ctx.seed + 600 + i, "test_mode": i % 2 == 0, "pp": [2, 1, 30][i % 3]})
+    traces = []
+    index = {}
+    ncalls = 0
+    skipped = 0
+    for n, job in enumerate(jobs):
+        try:
+            trs, done = _race_traces(job, "%s%d" % (label, n))
+        except tlc.MachineryError as ex:
+            if "non-integral" in str(ex):
+                skipped += 1
+                continue
+            raise
+        for t in trs:
+            index[t["id"]] = job
+            ncalls += len(t["events"])
+        traces.extend(trs)
+        out.add_case({"race": job["scn"], "seed": job["seed"], "n": n}, nontrivial=bool(trs))
+    if skipped * 2 > len(jobs) or not traces:
+        raise tlc.MachineryError("driver leg: %d of %d races unusable (times not on the tick grid)" % (skipped, len(jobs)))
+    multi = sum(1 for t in traces if len(t["events"]) >= 2)
+    if multi == 0:
+        raise tlc.MachineryError("driver leg vacuous: no task was post-processed in more than one batch")
+    verdicts = tracecheck.validate("Throughput", "TraceThroughput", "TraceThroughput.cfg", traces, name="c06drv", chunk=4000)
+    out.states += verdicts.n_events
+    out.transitions += verdicts.n_events
+    out.traces_validated += verdicts.accepted(len(traces))
+    for tid, fails in verdicts.l1.items():
+        clauses = sorted({c for _, cl in fails for c in cl})
+        job = index[tid]
+        case = {"src": "race", "job": {k: v for k, v in job.items()}}
+        out.violations.append(Violation(",".join(clauses), case, signature={"clauses": clauses, "src": "race"}, detail="driver leg: trace %s (throughput calculation calls of the real Driver in a simulated race) first failing call %d" % (tid, fails[0][0])))
+    for tid, lines in verdicts.l2.items():
+        out.drift.append("driver leg: trace %s: call %d is not a FlushWith step of Throughput.tla" % (tid, lines[0]))
+    out.extra["driver_leg"] = {"races": len(jobs), "task_traces": len(traces), "calculate_calls_validated": ncalls, "tasks_post_processed_in_several_batches": multi, "races_skipped_off_grid": skipped}
+    out.note("driver leg: %d races on the real Driver, %d per-task traces (%d with >= 2 batches), %d calculate() calls validated by TLC" % (len(jobs), len(traces), multi, ncalls))
+
+
 def replay(ctx, case):
     from ..core import Outcome
 
     out = Outcome(ctx.pid)
+    if case.get("src") == "race":
+        driver_leg(ctx, out, jobs=[case["job"]], label="replay")
+        for v in out.violations:
+            print("VIOLATION property=C06 clause=%s %s" % (v.clause, v.detail))
+        for d in out.drift:
+            print("MODEL-DRIFT property=C06 %s" % d)
+        return 1 if out.violations else 0
     run_cases([case], out, "replay")
     for v in out.violations:
         print("VIOLATION property=C06 clause=%s %s" % (v.clause, v.detail))
